@@ -189,6 +189,27 @@ def stepCore (tol : Tol) (st : St) (j : Json) : Except String (St × Json) := do
         -- `tgt.extend(other_regions_object)`: the elements of the other object's list, as they are now
         let src ← getRef st (← field j "src")
         pure (FOp.extend (regionsItems src))
+      | "update" => do
+        -- `d.update(other, **kw)` / `d |= other`: the entries of `other` as they are now (the value
+        -- objects themselves), then the keyword entries
+        let mut items : List (String × V) := []
+        match j.getObjVal? "src" with
+        | .ok r =>
+          match ← getRef st r with
+          | .node _ _ fs => items := fs.toList
+          | .atom _ => throw "update source is not an object"
+        | .error _ => pure ()
+        for it in (fieldD j "items" (Json.arr #[])).getArr?.toOption.getD #[] do
+          match ← jArr it with
+          | [jk, jv] =>
+            let (v, st') ← getVal st jv
+            st := st'
+            items := items ++ [((← jStr jk), v)]
+          | _ => throw "update item needs [key, value]"
+        pure (FOp.update items)
+      | "setdefault" => do
+        let (v, st') ← one st "val"; st := st'
+        pure (FOp.setdefault (← fStr j "key") v)
       | "insert" => do
         let (v, st') ← one st "val"; st := st'
         pure (FOp.insert (← fInt j "idx") v)
